@@ -182,8 +182,16 @@ func (s *Sim) checkQueuePreemption(askKey string, victims []*MAlloc, now int64) 
 		// the statement asks for a guarantee the path is still under; it does not tie it to the types of the ask
 		// (the core treats a type the guarantee does not mention as not holding the ask back)
 		needed := false
+		// what the queue uses, not counting what this very preemption takes away below it (victims in a sibling
+		// under the same guaranteed parent: the parent is under its guarantee once they are gone)
+		net := q.Alloc.Sub(q.Preempting)
+		for _, v := range victims {
+			if vq := s.appQueue(v.App); vq == qp || strings.HasPrefix(vq, qp+".") {
+				net = net.Sub(v.Res)
+			}
+		}
 		for t, g := range q.Guar {
-			if q.Alloc[t] < g {
+			if net[t] < g {
 				underGuar = true
 				if ask.Res[t] > 0 {
 					needed = true
@@ -356,7 +364,21 @@ func (s *Sim) checkQuotaPreemption(queue string, victims []*MAlloc, now int64) {
 			}
 			// at or below its share: nothing it uses exceeds what is guaranteed (a type without guarantee has none)
 			if cur[qp].FitsIn(pq.Guar) {
-				s.violate("C08", "quota-at-guarantee", "", "quota preemption for %s took victim %s %s from %s whose usage %s is at or below its guaranteed share %s", queue, v.Key, v.Res, qp, cur[qp], pq.Guar)
+				// where the excess is that of an ancestor, what each leaf has to give is computed by
+				// getChildQueuesPreemptableResource (known finding: the share ignores the leaf's own guarantee)
+				detail := ""
+				if own := pre.Queues[queue]; own != nil {
+					ownExcess := false
+					for t, m := range own.Max {
+						if own.HasMax && own.Alloc[t]-own.Preempting[t] > m {
+							ownExcess = true
+						}
+					}
+					if !ownExcess {
+						detail = "from-parent-excess"
+					}
+				}
+				s.violate("C08", "quota-at-guarantee", detail, "quota preemption for %s took victim %s %s from %s whose usage %s is at or below its guaranteed share %s", queue, v.Key, v.Res, qp, cur[qp], pq.Guar)
 			}
 		}
 		for _, qp := range ancestors(vLeaf) {
